@@ -114,3 +114,17 @@ UNIT = {
     ],
     "spec": SPEC,
 }
+
+
+# ---- as-found variant (VERIF_ASFOUND=1): the same contract on the function as it was at the pinned commit
+# ---- (two-state scanner, no ScanState enum).  Used once, to report defect F5 before the fix: commit.
+import copy as _copy
+UNIT_ASFOUND = _copy.deepcopy(UNIT)
+UNIT_ASFOUND["items"] = [it for it in UNIT_ASFOUND["items"] if it.get("name") != "ScanState"]
+UNIT_ASFOUND["items"][0]["loops"] = {1: {"expect_kw": "for", "header": (r"for c in chars", "for c in it: chars"),
+    "invariant": """        invariant
+            -it.history().len() <= count <= it.history().len(),
+            it.seq().len() < i32::MAX,
+            it.seq() == chars.remaining(),
+            it.history().len() == it.seq().len() ==> it.history() == it.seq(),"""}}
+UNIT_ASFOUND["spec"] = SPEC.replace(SPEC[SPEC.index("// ---- link between"):SPEC.index("// ---- witness:")], "")
